@@ -350,6 +350,10 @@ fn explore(cx: &mut Ctx, rng: &mut Rng) {
         }
         cases.push(compile_case(s, "token-soup"));
     }
+    // multi-byte adjacency (complete in both tiers): every keyword / operator / punctuation token of
+    // the vocabulary followed (and preceded) by 0-3 ASCII bytes and then a 2-, 3- or 4-byte character
+    // — the lexer's and formatter's look-ahead / look-behind by BYTE offsets must not cut a character
+    multibyte_adjacency_cases(&vocab, &mut |c| cases.push(c));
     // byte noise (made UTF-8-valid) and noisy corpus
     let n_noise = if thorough { 60_000 } else { 6_000 };
     for _ in 0..n_noise {
